@@ -382,5 +382,15 @@ type replayResult struct {
 
 // tryReplay: counterexample replay against the real code (see replay.go)
 func tryReplay(E *Engine, prop string, o *Obligation) *replayResult {
+	if rr := replayCex(E, prop, o); rr != nil {
+		if rr.Confirmed {
+			return rr
+		}
+		if other := replayObligation(E, prop, o); other != nil {
+			other.Text = rr.Text + "\n" + other.Text
+			return other
+		}
+		return rr
+	}
 	return replayObligation(E, prop, o)
 }
